@@ -39,3 +39,19 @@ pub fn c07_parse_back_refused(case: &crate::props::common::CsrCase, err: &rcgen:
 	}
 	None
 }
+
+/// C10: the recorded panic families. `Some(class)` only if the class is listed in
+/// known_findings.json and the panic message is the recorded one.
+pub fn c10_known_class(class: crate::props::c10::TriggerClass, panic_msg: &str) -> Option<&'static str> {
+	use crate::props::c10::TriggerClass::*;
+	let (name, needles): (&'static str, &[&str]) = match class {
+		Ia5 => ("K-IA5", &["IA5 string must be ASCII"]),
+		Oid => ("K-OID", &["Invalid OID"]),
+		Year => ("K-YEAR", &["Can't express a year", "local datetime out of valid range"]),
+	};
+	if listed(name).is_some() && needles.iter().any(|n| panic_msg.contains(n)) {
+		Some(name)
+	} else {
+		None
+	}
+}
